@@ -17,7 +17,7 @@ type Prop struct {
 }
 
 func init() {
-	corr.Register(Prop{Id: "C04", Prefixes: []string{"c04-", "node-"}, Profiles: c04Profiles})
+	corr.Register(Prop{Id: "C04", Prefixes: []string{"c04-", "c07-", "node-"}, Profiles: c04Profiles})
 }
 
 func (p Prop) ID() string                 { return p.Id }
